@@ -133,7 +133,22 @@ func (hs *history) genCreate(st *step, users []channel.Channel) {
 				rc.DataType = prng.Pick(r, varTypes)
 			}
 			y := r.Intn(100)
+			inBatch, predicted := hs.inBatchIndex(st)
 			switch {
+			case inBatch >= 0 && r.Chance(1, 3):
+				// The index is created by this very request: the client names it by the key
+				// it is about to get (next value of the leaseholder's counter). A wrong guess
+				// is just a failing request.
+				rc.Fault = "in-batch-index"
+				rc.LocalIndex = predicted
+				rc.Lease = st.Chans[inBatch].Lease
+				if r.Chance(1, 2) {
+					// ... and a later channel of the same request is refused by the engine
+					st.Chans = append(st.Chans, rc)
+					rc = reqChan{Kind: "data-fixed", DataType: prng.Pick(r, fixedTypes), Fault: "missing-index",
+						LocalIndex: uint32(900000 + r.Intn(1000)), Lease: rc.Lease}
+					rc.Name, rc.NameClass = hs.freshName(), "fresh"
+				}
 			case len(indexes) == 0 || y < 8:
 				rc.Fault = "missing-index"
 				rc.LocalIndex = uint32(900000 + r.Intn(1000))
@@ -175,6 +190,39 @@ func (hs *history) genCreate(st *step, users []channel.Channel) {
 		}
 		st.Chans = append(st.Chans, rc)
 	}
+}
+
+// inBatchIndex finds an index channel earlier in the request under construction and the
+// local key it should be given: keys are handed out in request order from the
+// leaseholder's counter, whose last value is the largest local key ever seen on it.
+func (hs *history) inBatchIndex(st *step) (int, uint32) {
+	eff := func(l uint16) uint16 {
+		if l == 0 {
+			return st.Via
+		}
+		return l
+	}
+	for i := len(st.Chans) - 1; i >= 0; i-- {
+		if st.Chans[i].Kind != "index" {
+			continue
+		}
+		lease := eff(st.Chans[i].Lease)
+		last := uint32(0)
+		for k := range hs.everSeen {
+			if uint16(k.Leaseholder()) == lease && uint32(k.LocalKey()) > last {
+				last = uint32(k.LocalKey())
+			}
+		}
+		pos := uint32(0)
+		for j := 0; j <= i; j++ {
+			c := st.Chans[j]
+			if c.Kind != "free" && c.Kind != "calc" && eff(c.Lease) == lease {
+				pos++
+			}
+		}
+		return i, last + pos
+	}
+	return -1, 0
 }
 
 func (hs *history) pickLease() uint16 {
